@@ -28,7 +28,7 @@ def scratch(name, patch):
     wt = "/tmp/selftest/%s" % name
     shutil.rmtree(wt, ignore_errors=True)
     os.makedirs(wt)
-    sh("git -C /repo archive HEAD | tar -x -C %s" % wt, "/")
+    sh("git -C /repo archive HEAD | tar -x -C %s && find %s -type f -exec touch {} +" % (wt, wt), "/")
     rc, out = sh("patch -s -p1 < %s" % patch, wt)
     if rc != 0:
         raise RuntimeError("patch %s does not apply: %s" % (patch, out))
